@@ -54,6 +54,82 @@ def runOp (s : Proto) (op : String) : Option (Proto × String) :=
       | .error e => showPErr e)
   | _ => none
 
+/-- the id an implementation's answer `id<N>@…` to a registration names -/
+def implIdOf (res : String) : Option Nat :=
+  if res.startsWith "id" then (((res.drop 2).toString.splitOn "@").headD "").toNat? else none
+
+/-- the transmissions of a log segment in text form: (packet text, answer was ok) -/
+def txEntriesOf (seg : List String) : List (String × Bool) :=
+  seg.filterMap fun x =>
+    if x.startsWith "tok/" then some ((x.drop 4).toString, true)
+    else if x.startsWith "ter/" then some ((x.drop 4).toString, false) else none
+
+/-- reorder the next link answers so that every transmission the model makes in this operation meets the answer the
+implementation's transmission of the same packet met (no property fixes which of several transmissions of one operation
+is handed to the link first): `dry` = the packets the model transmits, in its order; `impl` = the implementation's
+transmissions with their answers. `none` when the two do not transmit the same packets -/
+def followAnswers (lastMatch : Bool) (dry : List String) (impl : List (String × Bool)) : Option (List Bool) :=
+  -- when one packet is transmitted several times with different answers the matching is ambiguous: `lastMatch` selects
+  -- the other of the two simple strategies (the driver tries both)
+  let rec go (dry : List String) (impl : List (String × Bool)) (acc : List Bool) : Option (List Bool) :=
+    match dry with
+    | [] => if impl.isEmpty then some acc.reverse else none
+    | q :: t =>
+      match (if lastMatch then impl.reverse else impl).find? (·.1 == q) with
+      | none => none
+      | some e => go t (if lastMatch then (impl.reverse.erase e).reverse else impl.erase e) (e.2 :: acc)
+  go dry impl []
+
+/-- run a history following the implementation where the properties leave a choice: registrations are placed under the
+ids the implementation handed out (`implRes`: its answers per operation; C17 asks for an id that is not in use, not for a
+particular one), and within one operation the link's answers are matched to the transmissions by packet (`implLog`).
+`Except.error i`: at operation `i` the implementation handed out an id that is registered -/
+def runProtoStepsIds (lastMatch : Bool) (addr rxq txq ops : String) (implRes implLog : List String) :
+    Option (Except Nat (List String × List String × List Nat)) := do
+  let a ← parseHexNat addr
+  let rx ← parseRxq rxq
+  let tx ← parseTxq txq
+  let opl := if ops = "-" then [] else ops.splitOn ";"
+  let endOf (j : Nat) : Nat := (((implRes.getD j "").splitOn "#").getD 1 "0").toNat?.getD 0
+  let implSeg (i : Nat) : List String :=
+    let lo := if i = 0 then 0 else endOf (i - 1)
+    (implLog.drop lo).take (endOf i - lo)
+  let rec go (s : Proto) (ops : List String) (i : Nat) (acc : List String) (ns : List Nat) :
+      Option (Except Nat (Proto × List String × List Nat)) :=
+    match ops with
+    | [] => some (.ok (s, acc.reverse, ns.reverse))
+    | o :: t =>
+      let step : Option (Except Nat (Proto × String)) :=
+        match o.splitOn "/", implIdOf (implRes.getD i "") with
+        | ["add", c, tok, sends], some id => do
+          let tk ← tok.toNat?
+          let ss ← (if sends = "-" then [] else sends.splitOn "+").mapM parsePacket
+          match s.addAt ⟨tk, c == "c", ss⟩ id with
+          | some s' => pure (.ok (s', "id" ++ toString id))
+          | none => pure (.error i)
+        | _, _ =>
+          -- dry run with a link that accepts everything, to learn which packets the model transmits in this operation
+          let dryTx : List String :=
+            match runOp { s with txQueue := [] } o with
+            | some (s', _) => (s'.log.drop s.log.length).filterMap fun | .tx p _ => some (showPacket p) | _ => none
+            | none => []
+          let s1 : Proto :=
+            match followAnswers lastMatch dryTx (txEntriesOf (implSeg i)) with
+            | some answers =>
+              if answers.length ≤ s.txQueue.length || answers.any (! ·) then
+                { s with txQueue := (answers.map fun ok => if ok then none else some 0) ++ s.txQueue.drop answers.length }
+              else s
+            | none => s
+          (runOp s1 o).map .ok
+      match step with
+      | none => none
+      | some (.error e) => some (.error e)
+      | some (.ok (s', r)) =>
+        go s' t (i + 1) ((r ++ "@" ++ toString s'.rxQueue.length ++ "#" ++ toString s'.log.length) :: acc) (s.handlers.length :: ns)
+  match ← go (Proto.init (UInt16.ofNat a) rx tx) opl 0 [] [] with
+  | .error e => pure (.error e)
+  | .ok (s, rs, ns) => pure (.ok (rs, s.log.map showLogEntry, ns))
+
 /-- run a history; per operation `<result>@<rx items left>#<log length>`, the whole log, and the number of registered
 handlers before each operation -/
 def runProtoStepsN (addr rxq txq ops : String) : Option (List String × List String × List Nat) := do
